@@ -64,6 +64,8 @@ def explore_entry(args):
                 res["marks"][str(e[2])] = res["marks"].get(str(e[2]), 0) + 1
         if o in ("assume-false", "infeasible"):
             return
+        if opts.get("check_leaks") and o == "return" and st.heap_live != 0:
+            st.violations.append({"code": 19, "inputs": None, "spans": ["heap allocations still live at the end of the path: %d" % st.heap_live], "heap_leak": True})
         bad = o not in ("return",)
         need_model = bool(st.violations) or bad or rng.random() < sample_p or npaths[0] <= 2
         if not need_model:
@@ -78,7 +80,7 @@ def explore_entry(args):
             return
         inputs, model = m
         rec = {"outcome": o, "detail": st.detail, "inputs": inputs, "events": _eval_trace(st.trace, model),
-               "violations": [{"code": v["code"], "spans": v.get("spans"), "inputs": v.get("inputs")} for v in st.violations],
+               "violations": [{"code": v["code"], "spans": v.get("spans"), "inputs": v.get("inputs"), "heap_leak": v.get("heap_leak", False)} for v in st.violations],
                "steps": st.steps}
         if bad or st.violations:
             res["paths"].append(rec)
